@@ -236,6 +236,7 @@ MUTANTS = [
     ('C16', 'linear_layer.py', '        monotonicities=self.monotonicities,\n        input_min=self.input_min,\n        input_max=self.input_max)', '        monotonicities=self.monotonicities)', 'V1', 'Linear bounds validated only with constraints'),
     ('C15', 'conditional_pwl_calibration.py', '      and keypoint_output_parameters.shape[1] not in (1, units)', '      and keypoint_output_parameters.shape[1] != units', 'V8', 'validator rejects the broadcast unit axis'),
     ('C15', 'conditional_pwl_calibration.py', '      and keypoint_output_parameters.shape[1] not in (1, units)', '      and keypoint_output_parameters.shape[1] not in (units, 1)', None, 'N: membership tuple reordered'),
+    ('C10', 'pwl_calibration_lib.py', '        keypoints[:num_keypoints], shape=[num_keypoints, 1], dtype=dtype)', '        keypoints, shape=[num_keypoints, 1], dtype=dtype)', 'I4', 'all keypoints for a cyclic kernel'),
     ('C17', 'premade_lib.py', '        # going out of bound on the lattice\n        addition_score = -2.0',
      '        # going out of bound on the lattice\n        addition_score = -1.0', 'W7', 'full lattice ties with a repeat'),
     ('C17', 'premade_lib.py', '        # going out of bound on the lattice\n        addition_score = -2.0',
